@@ -151,6 +151,8 @@ type mWorld struct {
 	faultSince bool
 	injRng  *PRNG
 	hookOn  bool
+	exiting bool // inside the graceful Exit of a restart op
+	exitTries int
 }
 
 func (w *mWorld) cur() regState { return w.states[len(w.states)-1] }
@@ -306,6 +308,17 @@ func (w *mWorld) start() bool {
 func isMeta(path string) bool { return strings.Contains(filepath.Base(path), "nsqd.dat") }
 
 func (w *mWorld) before(ev *simos.Event) error {
+	if w.exiting && w.exitTries < 3 && isMeta(ev.Path) {
+		// the data path stays in use until the shutdown has written everything:
+		// a second nsqd started meanwhile must still be refused
+		w.exitTries++
+		if n2, err := nsqd.New(w.options(w.rc.Dir, "127.0.0.1:0", "127.0.0.1:0")); err == nil {
+			_ = n2
+			w.rc.Violate("C06", "second-instance-started-during-shutdown", "a second nsqd started on the data path while the first one was still writing its metadata during Exit (%s %s)", ev.Op, filepath.Base(ev.Path))
+		} else {
+			w.rc.Probe("second_instance_refused_during_shutdown")
+		}
+	}
 	if !w.hookOn || !isMeta(ev.Path) {
 		return nil
 	}
@@ -537,7 +550,9 @@ func (w *mWorld) exec(op Op) {
 		rc.Probe("second_instance_refused")
 	case "restart":
 		w.idle(0)
+		w.exiting, w.exitTries = true, 0
 		w.n.Exit()
+		w.exiting = false
 		synctest.Wait()
 		w.n = nil
 		// after Exit the data path is free again
